@@ -1,7 +1,842 @@
-//! C30 — not built yet.
-use lv_common::Ctx;
+//! C30 — Header-ex wire framing round-trips under any chunking.
+//!
+//! The real `HeaderCodec::{write_request, write_response, read_request, read_response}` (through the
+//! `verif::header_ex::codec_*` hooks) are driven over an in-memory `AsyncWrite` and a scripted `AsyncRead`
+//! that hands out generated chunk sizes with `Poll::Pending` in between (and, optionally, stalls for good so
+//! that the codec's time limit cuts the stream; the runtime clock is paused, so this costs no wall time).
+//!
+//! Oracles
+//!   * what the writer emits is `varint(len) || prost(message)` per message (independent framing);
+//!   * round trip: every message that fits the size limit reads back equal under every chunking;
+//!   * truncation at byte p: a request => Err; a response stream => Err iff no complete message lies within
+//!     the first p bytes, else exactly the prefix of complete messages (DESIGN §7: "never a wrong value");
+//!   * garbage / mutated / trailing bytes: result equals an independent reference parser (own varint length
+//!     prefix rules + prost decode of the body) applied to the bytes the codec may look at, or Err;
+//!   * the reader never takes more than the size limit from the stream;
+//!   * a panic anywhere is a violation.
+use std::io;
+use std::pin::Pin;
+use std::task::{Context, Poll};
 
-pub fn run(_ctx: &mut Ctx) {
-    eprintln!("C30: check not built yet");
-    std::process::exit(2);
+use celestia_proto::p2p::pb::{HeaderRequest, HeaderResponse};
+use futures::io::{AsyncRead, AsyncWrite};
+use lumina_node::verif::header_ex as hx;
+use lv_common::prelude::*;
+use lv_common::{Prng, no_panic};
+use lv_gen::headerex::{ReqData, make_request, panic_signature};
+use lv_gen::mutate::{ByteMut, apply_all, byte_mut_strategy};
+use prost::Message;
+
+// ------------------------------------------------------------------ recipes
+
+#[derive(Clone, Debug, Serialize, Deserialize)]
+pub struct RespSpec {
+    pub seed: u64,
+    pub len: u32,
+    pub status: i32,
+}
+
+#[derive(Clone, Debug, Serialize, Deserialize)]
+pub enum MsgSpec {
+    Request { data: ReqData, amount: u64 },
+    Responses(Vec<RespSpec>),
+}
+
+/// Chunk plan of the scripted reader/writer: sizes are cycled; bit i of `pending` says whether read i
+/// (mod 32) is preceded by one `Poll::Pending` (with an immediate wake-up).
+#[derive(Clone, Debug, Serialize, Deserialize)]
+pub struct Chunking {
+    pub sizes: Vec<u32>,
+    pub pending: u32,
+}
+
+#[derive(Clone, Debug, Serialize, Deserialize)]
+pub enum PrefixForm {
+    /// length prefix replaced by this value (canonical varint)
+    Value(u64),
+    /// true length +/- delta
+    Delta(i8),
+    /// the true length, padded to `total` bytes with 0x80 continuation bytes and a final 0x00
+    Overlong(u8),
+    /// ten bytes with the continuation bit set on the first nine and `last` as the tenth
+    TenByte(u8),
+    /// eleven continuation bytes
+    Endless,
+}
+
+#[derive(Clone, Debug, Serialize, Deserialize)]
+pub enum Garbage {
+    Random { seed: u64, len: u16 },
+    Mutated(Vec<ByteMut>),
+    LenPrefix { msg: u16, form: PrefixForm },
+    Trailing { seed: u64, len: u16 },
+    /// bytes of the honest stream, then the honest stream again (a second request / more responses)
+    Doubled,
+}
+
+#[derive(Clone, Debug, Serialize, Deserialize)]
+pub struct Case {
+    pub msg: MsgSpec,
+    pub chunkings: Vec<Chunking>,
+    /// extra truncation points for streams too large to cut at every byte
+    pub cuts: Vec<u32>,
+    /// cut points at which the stream stalls (no EOF) instead of ending
+    pub stalls: Vec<u32>,
+    pub garbage: Vec<Garbage>,
+}
+
+#[derive(Clone, Debug, Serialize, Deserialize)]
+pub struct LimitCase {
+    pub seed: u64,
+    pub n_msgs: u8,
+    /// total wire size = limit + delta
+    pub delta: i32,
+    pub chunking: Chunking,
+}
+
+// ------------------------------------------------------------------ strategies
+
+fn u64_boundary() -> impl Strategy<Value = u64> {
+    prop_oneof![
+        3 => prop_oneof![
+            Just(0u64), Just(1), Just(127), Just(128), Just(511), Just(512), Just(16383), Just(16384), Just(u32::MAX as u64), Just(1u64 << 32),
+            Just(i64::MAX as u64), Just(1u64 << 63), Just(u64::MAX - 1), Just(u64::MAX)
+        ],
+        2 => 0u64..1000,
+        2 => any::<u64>(),
+    ]
+}
+
+fn req_msg_strategy() -> impl Strategy<Value = MsgSpec> {
+    let data = prop_oneof![
+        1 => Just(ReqData::None),
+        4 => u64_boundary().prop_map(ReqData::Origin),
+        3 => prop::collection::vec(any::<u8>(), 32..=32).prop_map(ReqData::Hash),
+        2 => prop::collection::vec(any::<u8>(), 0..80).prop_map(ReqData::Hash),
+        // around the 1024-byte request limit (wire = 2 + 3 + len [+ amount field])
+        2 => (990usize..1040, any::<u8>()).prop_map(|(n, b)| ReqData::Hash(vec![b; n])),
+        1 => (1040usize..3000, any::<u8>()).prop_map(|(n, b)| ReqData::Hash(vec![b; n])),
+    ];
+    (data, u64_boundary()).prop_map(|(data, amount)| MsgSpec::Request { data, amount })
+}
+
+fn resp_strategy(max_body: u32) -> impl Strategy<Value = RespSpec> {
+    let len = prop_oneof![
+        2 => Just(0u32),
+        6 => 0u32..64,
+        2 => prop_oneof![Just(126u32), Just(127), Just(128), Just(129), Just(16382), Just(16383), Just(16384)],
+        3 => 64u32..2000,
+        2 => 2000u32..=max_body,
+    ];
+    let status = prop_oneof![
+        3 => Just(1i32), 1 => Just(0i32), 1 => Just(2i32),
+        1 => prop_oneof![Just(3i32), Just(-1), Just(i32::MAX), Just(i32::MIN), any::<i32>()]
+    ];
+    (any::<u64>(), len, status).prop_map(move |(seed, len, status)| RespSpec { seed, len: len.min(max_body), status })
+}
+
+fn resp_msg_strategy(max_msgs: usize, max_body: u32) -> impl Strategy<Value = MsgSpec> {
+    prop_oneof![
+        3 => prop::collection::vec(resp_strategy(max_body), 1..=3),
+        3 => prop::collection::vec(resp_strategy(max_body), 1..=12),
+        1 => prop::collection::vec(resp_strategy(max_body), 12..=max_msgs),
+    ]
+    .prop_map(MsgSpec::Responses)
+}
+
+fn chunking_strategy() -> impl Strategy<Value = Chunking> {
+    let sizes = prop_oneof![
+        2 => Just(vec![1u32]),
+        1 => Just(vec![2u32]),
+        1 => Just(vec![3u32]),
+        1 => Just(vec![u32::MAX]),
+        3 => prop::collection::vec(prop_oneof![3 => 1u32..8, 2 => 1u32..200, 1 => 1u32..70000], 1..6),
+    ];
+    (sizes, prop_oneof![Just(0u32), Just(u32::MAX), any::<u32>()]).prop_map(|(sizes, pending)| Chunking { sizes, pending })
+}
+
+fn garbage_strategy() -> impl Strategy<Value = Garbage> {
+    let form = prop_oneof![
+        3 => prop_oneof![
+            Just(0u64), Just(1), Just(127), Just(128), Just(1023), Just(1024), Just(1025), Just(10 * 1024 * 1024 - 1), Just(10 * 1024 * 1024),
+            Just(10 * 1024 * 1024 + 1), Just(u32::MAX as u64), Just(1u64 << 63), Just(u64::MAX), any::<u64>()
+        ].prop_map(PrefixForm::Value),
+        3 => prop_oneof![Just(1i8), Just(-1i8), -4i8..=4].prop_map(PrefixForm::Delta),
+        2 => (2u8..=10).prop_map(PrefixForm::Overlong),
+        2 => prop_oneof![Just(0u8), Just(1), Just(2), Just(0x7f), Just(0x80), Just(0x81), any::<u8>()].prop_map(PrefixForm::TenByte),
+        1 => Just(PrefixForm::Endless),
+    ];
+    prop_oneof![
+        2 => (any::<u64>(), prop_oneof![0u16..16, 0u16..400, 0u16..3000]).prop_map(|(seed, len)| Garbage::Random { seed, len }),
+        4 => prop::collection::vec(byte_mut_strategy(), 1..4).prop_map(Garbage::Mutated),
+        4 => (any::<u16>(), form).prop_map(|(msg, form)| Garbage::LenPrefix { msg, form }),
+        2 => (any::<u64>(), prop_oneof![1u16..8, 1u16..200, 1000u16..1100]).prop_map(|(seed, len)| Garbage::Trailing { seed, len }),
+        1 => Just(Garbage::Doubled),
+    ]
+}
+
+fn case_strategy(max_msgs: usize, max_body: u32, n_garbage: usize) -> impl Strategy<Value = Case> {
+    (
+        prop_oneof![2 => req_msg_strategy(), 5 => resp_msg_strategy(max_msgs, max_body)],
+        prop::collection::vec(chunking_strategy(), 5..=5),
+        prop::collection::vec(any::<u32>(), 12..=12),
+        prop::collection::vec(any::<u32>(), 2..=2),
+        prop::collection::vec(garbage_strategy(), n_garbage..=n_garbage),
+    )
+        .prop_map(|(msg, chunkings, cuts, stalls, garbage)| Case { msg, chunkings, cuts, stalls, garbage })
+}
+
+// ------------------------------------------------------------------ independent framing reference
+
+fn put_varint(out: &mut Vec<u8>, mut v: u64) {
+    loop {
+        let b = (v & 0x7f) as u8;
+        v >>= 7;
+        if v == 0 {
+            out.push(b);
+            return;
+        }
+        out.push(b | 0x80);
+    }
+}
+
+/// Protobuf base-128 length prefix: at most ten bytes, the terminating byte (< 0x80) must be among them,
+/// and a tenth byte may only carry bit 63. Returns (value, bytes consumed).
+fn ref_len_prefix(b: &[u8]) -> Option<(u64, usize)> {
+    let mut v: u64 = 0;
+    for i in 0..10 {
+        let byte = *b.get(i)?;
+        if i == 9 && byte >= 2 {
+            return None;
+        }
+        v |= ((byte & 0x7f) as u64) << (7 * i);
+        if byte < 0x80 {
+            return Some((v, i + 1));
+        }
+    }
+    None
+}
+
+/// one frame: (body, rest)
+fn ref_frame(b: &[u8]) -> Option<(&[u8], &[u8])> {
+    let (len, used) = ref_len_prefix(b)?;
+    let rest = &b[used..];
+    if (rest.len() as u64) < len {
+        return None;
+    }
+    let len = len as usize;
+    Some((&rest[..len], &rest[len..]))
+}
+
+fn ref_parse_request(b: &[u8]) -> Option<HeaderRequest> {
+    let (body, _) = ref_frame(b)?;
+    HeaderRequest::decode(body).ok()
+}
+
+fn ref_parse_responses(mut b: &[u8]) -> Option<Vec<HeaderResponse>> {
+    let mut out = Vec::new();
+    while let Some((body, rest)) = ref_frame(b) {
+        match HeaderResponse::decode(body) {
+            Ok(m) => out.push(m),
+            Err(_) => break,
+        }
+        b = rest;
+    }
+    (!out.is_empty()).then_some(out)
+}
+
+// ------------------------------------------------------------------ scripted I/O
+
+struct ScriptReader<'a> {
+    data: &'a [u8],
+    pos: usize,
+    sizes: Vec<usize>,
+    idx: usize,
+    pending: u32,
+    pended: bool,
+    /// deliver at most this many bytes, then stay Pending forever without waking (the peer stalls)
+    stall_at: Option<usize>,
+    min_chunk: usize,
+}
+
+impl<'a> ScriptReader<'a> {
+    fn new(data: &'a [u8], c: &Chunking, stall_at: Option<usize>) -> Self {
+        // bound the number of polls for large streams
+        let min_chunk = (data.len() / 3000).max(1);
+        ScriptReader {
+            data,
+            pos: 0,
+            sizes: c.sizes.iter().map(|s| (*s as usize).max(1)).collect(),
+            idx: 0,
+            pending: c.pending,
+            pended: false,
+            stall_at,
+            min_chunk,
+        }
+    }
+}
+
+impl AsyncRead for ScriptReader<'_> {
+    fn poll_read(mut self: Pin<&mut Self>, cx: &mut Context<'_>, buf: &mut [u8]) -> Poll<io::Result<usize>> {
+        let this = &mut *self;
+        let end = match this.stall_at {
+            Some(s) => s.min(this.data.len()),
+            None => this.data.len(),
+        };
+        if this.stall_at.is_some() && this.pos >= end {
+            return Poll::Pending; // never woken: only the codec's time limit gets out of this
+        }
+        if !this.pended && (this.pending >> (this.idx % 32)) & 1 == 1 {
+            this.pended = true;
+            cx.waker().wake_by_ref();
+            return Poll::Pending;
+        }
+        this.pended = false;
+        let want = this.sizes[this.idx % this.sizes.len()].max(this.min_chunk);
+        this.idx += 1;
+        let n = want.min(buf.len()).min(end - this.pos);
+        buf[..n].copy_from_slice(&this.data[this.pos..this.pos + n]);
+        this.pos += n;
+        Poll::Ready(Ok(n))
+    }
+}
+
+struct ScriptWriter {
+    out: Vec<u8>,
+    sizes: Vec<usize>,
+    idx: usize,
+    pending: u32,
+    pended: bool,
+    min_chunk: usize,
+}
+
+impl ScriptWriter {
+    fn new(c: &Chunking, expect_len: usize) -> Self {
+        ScriptWriter {
+            out: Vec::new(),
+            sizes: c.sizes.iter().map(|s| (*s as usize).max(1)).collect(),
+            idx: 0,
+            pending: c.pending,
+            pended: false,
+            min_chunk: (expect_len / 3000).max(1),
+        }
+    }
+}
+
+impl AsyncWrite for ScriptWriter {
+    fn poll_write(mut self: Pin<&mut Self>, cx: &mut Context<'_>, buf: &[u8]) -> Poll<io::Result<usize>> {
+        let this = &mut *self;
+        if !this.pended && (this.pending >> (this.idx % 32)) & 1 == 1 {
+            this.pended = true;
+            cx.waker().wake_by_ref();
+            return Poll::Pending;
+        }
+        this.pended = false;
+        let want = this.sizes[this.idx % this.sizes.len()].max(this.min_chunk);
+        this.idx += 1;
+        let n = want.min(buf.len());
+        this.out.extend_from_slice(&buf[..n]);
+        Poll::Ready(Ok(n))
+    }
+    fn poll_flush(self: Pin<&mut Self>, _: &mut Context<'_>) -> Poll<io::Result<()>> {
+        Poll::Ready(Ok(()))
+    }
+    fn poll_close(self: Pin<&mut Self>, _: &mut Context<'_>) -> Poll<io::Result<()>> {
+        Poll::Ready(Ok(()))
+    }
+}
+
+/// current-thread runtime with a paused clock, re-created after a panic unwound through `block_on`
+struct Rt(Option<tokio::runtime::Runtime>);
+
+impl Rt {
+    fn new() -> Rt {
+        Rt(None)
+    }
+    fn run<T>(&mut self, prop_sig: &str, f: impl Future<Output = T>) -> Result<T, Failure> {
+        let rt = self
+            .0
+            .take()
+            .unwrap_or_else(|| tokio::runtime::Builder::new_current_thread().enable_time().start_paused(true).build().unwrap());
+        match no_panic(|| rt.block_on(f)) {
+            Ok(v) => {
+                self.0 = Some(rt);
+                Ok(v)
+            }
+            Err(rec) => Err(Failure::new(panic_signature("C30", &rec), format!("{prop_sig}: the codec panicked: {rec}"))),
+        }
+    }
+}
+
+// ------------------------------------------------------------------ the check
+
+enum Value {
+    Req(HeaderRequest),
+    Resps(Vec<HeaderResponse>),
+}
+
+fn build_value(m: &MsgSpec) -> Value {
+    match m {
+        MsgSpec::Request { data, amount } => Value::Req(make_request(data, *amount)),
+        MsgSpec::Responses(rs) => Value::Resps(
+            rs.iter()
+                .map(|r| HeaderResponse {
+                    body: Prng::new(r.seed).bytes(r.len as usize),
+                    status_code: r.status,
+                })
+                .collect(),
+        ),
+    }
+}
+
+/// independent wire image and the end offset of every message
+fn ref_wire(v: &Value) -> (Vec<u8>, Vec<usize>) {
+    let mut out = Vec::new();
+    let mut ends = Vec::new();
+    let mut put = |body: Vec<u8>, out: &mut Vec<u8>| {
+        put_varint(out, body.len() as u64);
+        out.extend_from_slice(&body);
+        ends.push(out.len());
+    };
+    match v {
+        Value::Req(r) => put(r.encode_to_vec(), &mut out),
+        Value::Resps(rs) => {
+            for r in rs {
+                put(r.encode_to_vec(), &mut out);
+            }
+        }
+    }
+    (out, ends)
+}
+
+fn hexhead(b: &[u8]) -> String {
+    let n = b.len().min(48);
+    format!("{}{} ({} bytes)", hex::encode(&b[..n]), if b.len() > n { "…" } else { "" }, b.len())
+}
+
+fn short_resps(v: &[HeaderResponse]) -> String {
+    let parts: Vec<String> = v.iter().take(5).map(|r| format!("(status {}, body {} B)", r.status_code, r.body.len())).collect();
+    format!("{} msgs [{}{}]", v.len(), parts.join(", "), if v.len() > 5 { ", …" } else { "" })
+}
+
+struct Limits {
+    req: usize,
+    resp: usize,
+}
+
+/// read `stream` as a request through the real codec
+fn read_req(rt: &mut Rt, stream: &[u8], c: &Chunking, stall: Option<usize>, lim: &Limits, what: &str, obs: &mut Obs) -> Result<Option<HeaderRequest>, Failure> {
+    let mut rd = ScriptReader::new(stream, c, stall);
+    let r = rt.run(what, hx::codec_read_request(&mut rd))?;
+    if rd.pos > lim.req {
+        obs.fail("C30:read-beyond-size-limit", format!("{what}: read_request consumed {} bytes, the request size limit is {}", rd.pos, lim.req))?;
+    }
+    Ok(r.ok())
+}
+
+fn read_resps(rt: &mut Rt, stream: &[u8], c: &Chunking, stall: Option<usize>, lim: &Limits, what: &str, obs: &mut Obs) -> Result<Option<Vec<HeaderResponse>>, Failure> {
+    let mut rd = ScriptReader::new(stream, c, stall);
+    let r = rt.run(what, hx::codec_read_response(&mut rd))?;
+    if rd.pos > lim.resp {
+        obs.fail("C30:read-beyond-size-limit", format!("{what}: read_response consumed {} bytes, the response size limit is {}", rd.pos, lim.resp))?;
+    }
+    Ok(r.ok())
+}
+
+fn make_garbage(g: &Garbage, wire: &[u8], ends: &[usize]) -> (Vec<u8>, &'static str) {
+    match g {
+        Garbage::Random { seed, len } => (Prng::new(*seed).bytes(*len as usize), "garbage-random"),
+        Garbage::Mutated(m) => (apply_all(wire, m), "garbage-mutated"),
+        Garbage::Trailing { seed, len } => {
+            let mut v = wire.to_vec();
+            v.extend(Prng::new(*seed).bytes(*len as usize));
+            (v, "garbage-trailing-bytes")
+        }
+        Garbage::Doubled => {
+            let mut v = wire.to_vec();
+            v.extend_from_slice(wire);
+            (v, "garbage-doubled-stream")
+        }
+        Garbage::LenPrefix { msg, form } => {
+            let i = pick(*msg, ends.len());
+            let start = if i == 0 { 0 } else { ends[i - 1] };
+            let (true_len, used) = ref_len_prefix(&wire[start..]).expect("honest prefix");
+            let mut p = Vec::new();
+            let label = match form {
+                PrefixForm::Value(v) => {
+                    put_varint(&mut p, *v);
+                    "garbage-length-prefix-value"
+                }
+                PrefixForm::Delta(d) => {
+                    put_varint(&mut p, true_len.saturating_add_signed(*d as i64));
+                    "garbage-length-prefix-off-by"
+                }
+                PrefixForm::Overlong(total) => {
+                    put_varint(&mut p, true_len);
+                    let total = (*total as usize).max(p.len());
+                    if total > p.len() {
+                        let last = p.len() - 1;
+                        p[last] |= 0x80;
+                        while p.len() < total - 1 {
+                            p.push(0x80);
+                        }
+                        p.push(0x00);
+                    }
+                    "garbage-length-prefix-overlong"
+                }
+                PrefixForm::TenByte(last) => {
+                    p.extend_from_slice(&[0x80 | (true_len as u8 & 0x7f), 0x80, 0x80, 0x80, 0x80, 0x80, 0x80, 0x80, 0x80, *last]);
+                    "garbage-length-prefix-ten-bytes"
+                }
+                PrefixForm::Endless => {
+                    p.extend_from_slice(&[0x80; 11]);
+                    "garbage-length-prefix-endless"
+                }
+            };
+            let mut v = wire[..start].to_vec();
+            v.extend_from_slice(&p);
+            v.extend_from_slice(&wire[start + used..]);
+            (v, label)
+        }
+    }
+}
+
+fn run_case(case: &Case, lim: &Limits, cut_all_below: usize, obs: &mut Obs) -> Result<(), Failure> {
+    let mut rt = Rt::new();
+    let value = build_value(&case.msg);
+    let (wire_ref, ends) = ref_wire(&value);
+    let is_req = matches!(value, Value::Req(_));
+    let limit = if is_req { lim.req } else { lim.resp };
+    let fits = wire_ref.len() <= limit;
+    let base_digest = digest_bytes(&wire_ref);
+    obs.label(if is_req { "msg-request" } else { "msg-responses" });
+    if !fits {
+        obs.label("msg-exceeds-size-limit");
+    }
+    if let Value::Resps(v) = &value {
+        obs.label(match v.len() {
+            1 => "responses-1",
+            2..=12 => "responses-2..12",
+            _ => "responses-13+",
+        });
+    }
+
+    // ---- write through the real codec (plain and chunked sink) and compare with the independent framing
+    let wire = {
+        let mut sink: Vec<u8> = Vec::new();
+        let mut chunky = ScriptWriter::new(&case.chunkings[0], wire_ref.len());
+        let (r1, r2) = match &value {
+            Value::Req(r) => (
+                rt.run("write_request", hx::codec_write_request(&mut sink, r.clone()))?,
+                rt.run("write_request(chunked sink)", hx::codec_write_request(&mut chunky, r.clone()))?,
+            ),
+            Value::Resps(v) => (
+                rt.run("write_response", hx::codec_write_response(&mut sink, v.clone()))?,
+                rt.run("write_response(chunked sink)", hx::codec_write_response(&mut chunky, v.clone()))?,
+            ),
+        };
+        obs.eval(None);
+        obs.label("write");
+        if let Err(e) = r1.and(r2) {
+            obs.fail("C30:write-error", format!("writing to an in-memory sink failed: {e}"))?;
+        }
+        if fits && sink != wire_ref {
+            obs.fail(
+                "C30:wire-format",
+                format!("the codec wrote {} but varint(len)||prost(message) framing is {}", hexhead(&sink), hexhead(&wire_ref)),
+            )?;
+        }
+        if chunky.out != sink {
+            obs.fail("C30:chunked-write-differs", format!("a sink accepting small chunks received {} instead of {}", hexhead(&chunky.out), hexhead(&sink)))?;
+        }
+        sink
+    };
+
+    // ---- round trip under every chunking
+    for (ci, c) in case.chunkings.iter().enumerate() {
+        let what = format!("round trip, chunking #{ci} {:?}", c);
+        let one_byte = c.sizes.iter().all(|s| *s == 1);
+        obs.eval(Some(base_digest ^ digest_of(c)));
+        obs.label(if one_byte { "roundtrip-1-byte-chunks" } else if c.sizes == [u32::MAX] { "roundtrip-single-chunk" } else { "roundtrip-mixed-chunks" });
+        if c.pending != 0 {
+            obs.label("roundtrip-with-pending");
+        }
+        match &value {
+            Value::Req(r) => {
+                let got = read_req(&mut rt, &wire, c, None, lim, &what, obs)?;
+                if fits {
+                    if got.as_ref() != Some(r) {
+                        obs.fail("C30:roundtrip-request", format!("{what}: wrote {r:?}, read back {got:?}; wire {}", hexhead(&wire)))?;
+                    }
+                } else {
+                    obs.label("oversize-request");
+                    if got.is_some() {
+                        obs.fail(
+                            "C30:oversize-request-accepted",
+                            format!("{what}: a request of {} wire bytes (limit {}) was read back as {got:?}", wire.len(), lim.req),
+                        )?;
+                    }
+                }
+            }
+            Value::Resps(v) => {
+                let got = read_resps(&mut rt, &wire, c, None, lim, &what, obs)?;
+                if fits && got.as_ref() != Some(v) {
+                    obs.fail(
+                        "C30:roundtrip-response",
+                        format!("{what}: wrote {}, read back {}; wire {}", short_resps(v), got.as_ref().map(|g| short_resps(g)).unwrap_or("Err".into()), hexhead(&wire)),
+                    )?;
+                }
+            }
+        }
+    }
+    if !fits {
+        return Ok(());
+    }
+
+    // ---- truncation: at every byte for small streams, at message boundaries +-1 and generated points otherwise
+    let n = wire.len();
+    let mut cuts: Vec<usize> = if n <= cut_all_below {
+        (0..n).collect()
+    } else {
+        let mut v: Vec<usize> = vec![0, 1, n - 1];
+        for e in &ends {
+            v.extend([e.saturating_sub(1), *e, (*e + 1).min(n - 1)]);
+        }
+        v.extend(case.cuts.iter().map(|c| (*c as usize) % n));
+        v.retain(|p| *p < n);
+        v.sort_unstable();
+        v.dedup();
+        v
+    };
+    // stalled variants (time-limit truncation) at a couple of points
+    let stall_points: Vec<usize> = case.stalls.iter().map(|c| (*c as usize) % (n + 1)).collect();
+    let total_cuts = cuts.len();
+    cuts.extend(stall_points.iter().copied());
+    for (k, p) in cuts.iter().copied().enumerate() {
+        let stalled = k >= total_cuts;
+        let c = &case.chunkings[k % case.chunkings.len()];
+        let complete = ends.iter().filter(|e| **e <= p).count();
+        let what = format!("{} at byte {p} of {n} ({} complete messages before the cut)", if stalled { "stream stalls" } else { "stream truncated" }, complete);
+        obs.eval(Some(base_digest ^ (p as u64).wrapping_mul(0x9E37_79B9_7F4A_7C15) ^ stalled as u64));
+        obs.label(if stalled { "cut-by-stall" } else { "cut-by-eof" });
+        let (data, stall) = if stalled { (&wire[..], Some(p)) } else { (&wire[..p], None) };
+        match &value {
+            Value::Req(r) => {
+                let got = read_req(&mut rt, data, c, stall, lim, &what, obs)?;
+                if p < n {
+                    obs.label("truncated-request");
+                    if got.is_some() {
+                        obs.fail("C30:truncated-request-accepted", format!("{what}: read_request returned {got:?} for a strict prefix of {r:?}"))?;
+                    }
+                } else if got.as_ref() != Some(r) {
+                    obs.fail("C30:roundtrip-request", format!("{what}: wrote {r:?}, read back {got:?}"))?;
+                }
+            }
+            Value::Resps(v) => {
+                let got = read_resps(&mut rt, data, c, stall, lim, &what, obs)?;
+                if complete == 0 {
+                    obs.label("truncated-responses-none-complete");
+                    if let Some(g) = &got {
+                        obs.fail("C30:truncated-response-wrong", format!("{what}: expected an error, read {}", short_resps(g)))?;
+                    }
+                } else {
+                    obs.label(if complete < v.len() { "truncated-responses-prefix" } else { "truncated-responses-all" });
+                    if got.as_deref() != Some(&v[..complete]) {
+                        obs.fail(
+                            "C30:truncated-response-wrong",
+                            format!(
+                                "{what}: expected exactly the first {complete} of {} messages, read {}",
+                                v.len(),
+                                got.as_ref().map(|g| short_resps(g)).unwrap_or("Err".into())
+                            ),
+                        )?;
+                    }
+                }
+            }
+        }
+    }
+
+    // ---- garbage, judged against the independent reference parser
+    for (gi, g) in case.garbage.iter().enumerate() {
+        let (stream, label) = make_garbage(g, &wire, &ends);
+        let c = &case.chunkings[gi % case.chunkings.len()];
+        let visible = &stream[..stream.len().min(limit)];
+        let what = format!("{label} {}", hexhead(&stream));
+        obs.eval(Some(digest_bytes(&stream) ^ is_req as u64));
+        obs.label(label);
+        if is_req {
+            let exp = ref_parse_request(visible);
+            let got = read_req(&mut rt, &stream, c, None, lim, &what, obs)?;
+            obs.label(if exp.is_some() { "garbage-parses" } else { "garbage-rejected" });
+            if got != exp {
+                obs.fail("C30:garbage-differs-from-reference", format!("{what}: read_request gave {got:?}, the reference parser {exp:?}"))?;
+            }
+        } else {
+            let exp = ref_parse_responses(visible);
+            let got = read_resps(&mut rt, &stream, c, None, lim, &what, obs)?;
+            obs.label(if exp.is_some() { "garbage-parses" } else { "garbage-rejected" });
+            if got != exp {
+                obs.fail(
+                    "C30:garbage-differs-from-reference",
+                    format!(
+                        "{what}: read_response gave {}, the reference parser {}",
+                        got.as_ref().map(|g| short_resps(g)).unwrap_or("Err".into()),
+                        exp.as_ref().map(|g| short_resps(g)).unwrap_or("Err".into())
+                    ),
+                )?;
+            }
+        }
+    }
+    Ok(())
+}
+
+fn run_limit_case(case: &LimitCase, lim: &Limits, obs: &mut Obs) -> Result<(), Failure> {
+    let mut rt = Rt::new();
+    let n = case.n_msgs.max(1) as usize;
+    let target = (lim.resp as i64 + case.delta as i64) as usize;
+    // n messages with status 1; framing overhead per message: len prefix (<=4) + tag/len of body (<=5) + status (2)
+    let mut prng = Prng::new(case.seed);
+    let mut msgs: Vec<HeaderResponse> = Vec::new();
+    // all but the last message share `target - 100_000` bytes; the last one (100..~101 kB, or the whole stream
+    // when n == 1) stays clear of the sizes where a varint prefix grows, so the total can be hit exactly
+    let share = if n > 1 { (target - 100_000) / (n - 1) } else { 0 };
+    for _ in 0..n - 1 {
+        let body_len = share.saturating_sub(16 + prng.below(64) as usize);
+        msgs.push(HeaderResponse {
+            body: prng.bytes(body_len),
+            status_code: 1,
+        });
+    }
+    msgs.push(HeaderResponse { body: vec![], status_code: 1 });
+    let so_far: usize = if n > 1 { ref_wire(&Value::Resps(msgs[..n - 1].to_vec())).0.len() } else { 0 };
+    let mut last_len = target.saturating_sub(so_far + 12);
+    let mut sized = false;
+    for _ in 0..16 {
+        msgs[n - 1].body = prng.bytes(last_len);
+        let total = so_far + {
+            let b = msgs[n - 1].encode_to_vec();
+            let mut p = Vec::new();
+            put_varint(&mut p, b.len() as u64);
+            p.len() + b.len()
+        };
+        if total == target {
+            sized = true;
+            break;
+        }
+        if total < target {
+            last_len += target - total;
+        } else {
+            last_len -= total - target;
+        }
+    }
+    if !sized {
+        return Err(Failure::new("gen", format!("could not size a response list to exactly {target} bytes")));
+    }
+    let value = Value::Resps(msgs.clone());
+    let (wire_ref, ends) = ref_wire(&value);
+    assert_eq!(wire_ref.len(), target);
+    let fits = target <= lim.resp;
+    obs.eval(Some(digest_bytes(&wire_ref[..4096.min(wire_ref.len())]) ^ case.delta as u64 ^ (n as u64) << 40));
+    obs.label(match case.delta {
+        0 => "near-limit-exact",
+        d if d < 0 => "near-limit-below",
+        _ => "near-limit-above",
+    });
+    let mut sink: Vec<u8> = Vec::new();
+    if let Err(e) = rt.run("write_response near the limit", hx::codec_write_response(&mut sink, msgs.clone()))? {
+        obs.fail("C30:write-error", format!("writing to an in-memory sink failed: {e}"))?;
+    }
+    if fits && sink != wire_ref {
+        obs.fail("C30:wire-format", format!("near-limit list: the codec wrote {} bytes, the reference framing has {}", sink.len(), wire_ref.len()))?;
+    }
+    let what = format!("list of {n} responses, {} wire bytes (limit {:+})", sink.len(), case.delta);
+    let got = read_resps(&mut rt, &sink, &case.chunking, None, lim, &what, obs)?;
+    if fits {
+        if got.as_ref() != Some(&msgs) {
+            obs.fail(
+                "C30:roundtrip-response",
+                format!("{what}: read back {}", got.as_ref().map(|g| short_resps(g)).unwrap_or("Err".into())),
+            )?;
+        }
+    } else {
+        // does not fit: the property promises nothing beyond "never a wrong value"
+        let visible_complete = ends.iter().filter(|e| **e <= lim.resp).count();
+        if sink == wire_ref {
+            let exp = (visible_complete > 0).then(|| msgs[..visible_complete].to_vec());
+            if got != exp {
+                obs.fail(
+                    "C30:oversize-response-wrong",
+                    format!(
+                        "{what}: expected the {visible_complete} messages that lie within the limit, read {}",
+                        got.as_ref().map(|g| short_resps(g)).unwrap_or("Err".into())
+                    ),
+                )?;
+            }
+        } else if let Some(g) = &got {
+            // the writer sent a partial list: whatever is read must be a prefix of the original
+            if g.len() > msgs.len() || g[..] != msgs[..g.len()] {
+                obs.fail("C30:oversize-response-wrong", format!("{what}: read {} which is not a prefix of the list", short_resps(g)))?;
+            }
+        }
+    }
+    Ok(())
+}
+
+pub fn run(ctx: &mut Ctx) {
+    let (lreq, lresp) = hx::codec_size_limits();
+    ctx.assume("message bodies are encoded/decoded with prost (trusted); the framing (varint length prefix, completeness, message sequence) is re-implemented independently in the harness");
+    ctx.assume("chunk sizes, Pending points, stalls, truncation points and garbage are generated; the codec's 1 s / 5 s time limits are exercised with a paused tokio clock (a stalled stream is cut by the time limit)");
+    ctx.assume(&format!("size limits read from the code through the hook: request {lreq} bytes, response {lresp} bytes; a stream longer than the limit is judged on its first `limit` bytes"));
+    ctx.essential(&[
+        "msg-request",
+        "msg-responses",
+        "responses-13+",
+        "roundtrip-1-byte-chunks",
+        "roundtrip-single-chunk",
+        "roundtrip-mixed-chunks",
+        "roundtrip-with-pending",
+        "oversize-request",
+        "truncated-request",
+        "truncated-responses-none-complete",
+        "truncated-responses-prefix",
+        "cut-by-stall",
+        "garbage-random",
+        "garbage-mutated",
+        "garbage-trailing-bytes",
+        "garbage-length-prefix-value",
+        "garbage-length-prefix-overlong",
+        "garbage-length-prefix-ten-bytes",
+        "garbage-parses",
+        "garbage-rejected",
+        "near-limit-exact",
+        "near-limit-below",
+        "near-limit-above",
+    ]);
+    ctx.set_shrink_iters(300);
+    let (cases, max_msgs, max_body, cut_all_below, n_garbage, limit_cases) = match ctx.tier {
+        Tier::Quick => (3000u32, 40usize, 20_000u32, 200usize, 4usize, 16u32),
+        Tier::Thorough => (100_000, 40, 20_000, 600, 6, 96),
+    };
+    let lim = Limits { req: lreq, resp: lresp };
+    let rule = "per generated message (request with any origin/hash (0..3000 bytes)/no data and boundary amounts, or a list of 1..40 responses with bodies 0..20 kB and any status code): write through the codec (plain and chunked sink) and compare with independent framing; read back under 5 generated chunkings (1-byte, 2, 3, everything, mixed sizes; Pending before reads by a 32-bit mask); truncate at every byte (streams <= 200 B quick / 600 B thorough) or at every message boundary +-1 plus 12 generated points, plus 2 stall points cut by the time limit; 4..6 garbage streams (random bytes, byte/field mutations of the honest stream, rewritten length prefixes incl. off-by-one/huge/overlong/10-byte/endless varints, trailing bytes, doubled stream) judged against the reference parser. One evaluation per read. Non-trivial = every read (distinct by stream bytes + chunking / cut point)";
+    {
+        let lim = Limits { req: lreq, resp: lresp };
+        ctx.proptest("framing", rule, cases, move || case_strategy(max_msgs, max_body, n_garbage), move |case, obs| run_case(case, &lim, cut_all_below, obs));
+    }
+    let rule_limit = "response lists whose wire size is exactly limit+delta, delta in {-2,-1,0} (must round-trip) and {+1,+2,+small} (does not fit: only the messages lying within the limit, never a wrong value; reader never consumes more than the limit), 1..12 messages, generated chunking with chunks >= 3.5 kB";
+    ctx.proptest(
+        "near-limit",
+        rule_limit,
+        limit_cases,
+        || {
+            (
+                any::<u64>(),
+                1u8..=12,
+                prop_oneof![3 => Just(0i32), 2 => Just(-1), 1 => Just(-2), 2 => Just(1), 1 => Just(2), 1 => 3i32..5000, 1 => -5000i32..-2],
+                chunking_strategy(),
+            )
+                .prop_map(|(seed, n_msgs, delta, chunking)| LimitCase { seed, n_msgs, delta, chunking })
+        },
+        move |case, obs| run_limit_case(case, &lim, obs),
+    );
 }
